@@ -574,6 +574,9 @@ def gen_C07(rng, tier):
         L.append('eq 0 2'); L.append('eq 1 2')
         if n > 1:
             L.append('m 2 set_bit %d %d' % (rng.randrange(n), rng.randrange(2))); L.append('eq 0 2')
+        # equality is list equality: the same words with another length, the same length with other bits, are different vectors
+        k = rng.choice([1, 2, 63, 64])
+        L += ['new 3 bv from_bits %s' % bits_lit(n + k, v), 'eq 0 3', 'new 4 bv from_bits %s' % bits_lit(n, v), 'm 4 push_bit 0', 'eq 0 4', 'eq 3 4' ]
         cases.append(L)
     # scans across tens of thousands of words without a hit (a scan must not cost stack or time per word beyond a loop step)
     n = (4000000 if tier == 'quick' else 40000000) + rng.randrange(0, 64)
